@@ -267,6 +267,8 @@ class LinesTransportMixin:
         tags: list[str] | None = None,
     ) -> bytes:
         data = await asyncio.wait_for(self.get_reader().readline(), timeout)
+        if data and not data.endswith(b"\n"):
+            raise BrokenPipeError("connection closed in the middle of a message")
         d = data.decode().strip()
 
         t = tags + ["read"] if tags is not None else ["read"]
